@@ -9,6 +9,7 @@ let () =
    | [ _; "absval"; file; handle; tyid ] -> Drv_absval.absval file handle tyid
    | [ _; "absent"; file ] -> Drv_absent.absent file
    | [ _; "abspar"; file; child ] -> Drv_abspar.abspar file child
+   | [ _; "absprom"; file ] -> Drv_absprom.absprom file
    | [ _; "codec-mesh"; file ] -> Drv_codec.codec_mesh file
    | [ _; "codec-image"; file ] -> Drv_codec.codec_image file
    | [ _; "codec-msg"; file ] -> Drv_codec.codec_msg file
